@@ -8,7 +8,8 @@
 // datapoints with unique ids to the extension's ingestion endpoint and waits for the 2xx) and the
 // upstream gostatsd (scripted latency / outcomes). Everything runs in one process and every
 // observation gets a stamp from one logical clock, so the ordering oracle is exact:
-//   ack(id) < runtime-done post  =>  last upstream attempt carrying id ended < arrival of the next GET event/next.
+//
+//	ack(id) < runtime-done post  =>  last upstream attempt carrying id ended < arrival of the next GET event/next.
 package c20
 
 import (
@@ -21,6 +22,9 @@ import (
 	"net"
 	"net/http"
 	"net/http/httptest"
+	"os"
+	"os/exec"
+	"path/filepath"
 	"strings"
 	"sync"
 	"sync/atomic"
@@ -39,6 +43,7 @@ import (
 	"github.com/atlassian/gostatsd/pkg/verifhook"
 
 	"verif/mon"
+	"verif/ovl"
 )
 
 type config struct {
@@ -58,6 +63,15 @@ type config struct {
 	// ScriptedServer replaces the real statsd.Server by a server whose Run returns this error kind at once
 	// (start-up failure classification): plain | nil | canceled | deadline | wrapped-deadline
 	ScriptedServer string `json:"scripted_server_error,omitempty"`
+	// Binary runs the real cmd/lambda-extension executable (built from the repository under test with the race
+	// detector) as a child process, configured by a configuration file and AWS_LAMBDA_RUNTIME_API like in a
+	// Lambda sandbox, instead of composing lambda.NewExtension in process: main(), GetConfiguration and NewServer
+	// are then part of what is monitored. ManualFlushKey says how per-invocation flushing is configured
+	// ("" = left to the default, "true" = set in the file). DynHeaders puts http-transport.dynamic-headers into
+	// the file (README: not supported by the extension, i.e. without effect) and tags the datapoints with them.
+	Binary         bool     `json:"real_binary,omitempty"`
+	ManualFlushKey string   `json:"manual_flush_key,omitempty"`
+	DynHeaders     []string `json:"dynamic_headers_in_file,omitempty"`
 }
 
 // ---------------------------------------------------------------------------------------------
@@ -78,18 +92,20 @@ type world struct {
 	r   *mon.Run
 	cfg config
 
-	mu       sync.Mutex
-	gets     []int64 // arrival stamps of GET event/next
-	register int
+	mu        sync.Mutex
+	gets      []int64 // arrival stamps of GET event/next
+	register  int
 	subscribe int
-	initErr  int
-	exitErr  int
-	bodies   map[string]*body
-	order    []*body
-	primed   bool
-	nonEmpty int
+	initErr   int
+	exitErr   int
+	bodies    map[string]*body
+	order     []*body
+	primed    bool
+	nonEmpty  int
 
 	next chan string // events handed to GET event/next
+
+	lastUpstream atomic.Int64 // UnixNano of the last arrival or answer at the upstream (quiescence of a wedged run)
 
 	runtime  *httptest.Server
 	upstream *httptest.Server
@@ -141,6 +157,8 @@ func (w *world) runtimeHandler(rw http.ResponseWriter, req *http.Request) {
 
 func (w *world) upstreamHandler(rw http.ResponseWriter, req *http.Request) {
 	begin := w.r.Stamp()
+	w.lastUpstream.Store(time.Now().UnixNano())
+	defer func() { w.lastUpstream.Store(time.Now().UnixNano()) }()
 	raw, _ := io.ReadAll(req.Body)
 	var msg pb.RawMessageV2
 	_ = proto.Unmarshal(raw, &msg)
@@ -221,7 +239,25 @@ type sent struct {
 
 // ingest posts one map holding the given set members to the extension's ingestion endpoint.
 func ingest(client *http.Client, addr string, ids []string) (int, error) {
-	msg := &pb.RawMessageV2{Sets: map[string]*pb.SetTagV2{"verif.ids": {TagMap: map[string]*pb.RawSetV2{"": {Values: ids}}}}}
+	return ingestTagged(client, addr, ids, nil)
+}
+
+// ingestTagged spreads the ids over series of the set "verif.ids" that differ in the value of the tag names
+// (none = one untagged series).
+func ingestTagged(client *http.Client, addr string, ids []string, tagNames []string) (int, error) {
+	msg := &pb.RawMessageV2{Sets: map[string]*pb.SetTagV2{"verif.ids": {TagMap: map[string]*pb.RawSetV2{}}}}
+	tm := msg.Sets["verif.ids"].TagMap
+	for i, id := range ids {
+		key, tags := "", []string(nil)
+		if len(tagNames) > 0 && i%3 != 2 {
+			tags = []string{fmt.Sprintf("%s:v%d", tagNames[i%len(tagNames)], i%3)}
+			key = tags[0]
+		}
+		if tm[key] == nil {
+			tm[key] = &pb.RawSetV2{Tags: tags}
+		}
+		tm[key].Values = append(tm[key].Values, id)
+	}
 	raw, _ := proto.Marshal(msg)
 	resp, err := client.Post("http://"+addr+"/v2/raw", "application/x-protobuf", bytes.NewReader(raw))
 	if err != nil {
@@ -318,11 +354,26 @@ func runScriptedStartupFailure(r *mon.Run, cfg config) {
 
 var otherRecords = []string{"platform.start", "platform.initStart", "platform.initRuntimeDone", "platform.report", "platform.extension", "platform.telemetrySubscription", "platform.logsDropped", "function"}
 
+// runExecution runs one execution; an extension that stops asking for events although the upstream has been
+// idle for 30 s (bounded progress in a deterministic script) is run once more and reported if it wedges again.
 func runExecution(r *mon.Run, cfg config) {
 	if cfg.ScriptedServer != "" {
 		runScriptedStartupFailure(r, cfg)
 		return
 	}
+	where := runOnce(r, cfg)
+	if where == "" {
+		return
+	}
+	if again := runOnce(r, cfg); again != "" {
+		r.Violation("extension-wedged:"+again, fmt.Sprintf("the extension never sent the GET event/next that %s, although every upstream request had been answered and the upstream had been idle for more than 30 s; reproduced by a second run of the same execution [%+v]", again, cfg), map[string]interface{}{"config": cfg})
+		r.Eval(1)
+		return
+	}
+	r.Inconclusive("get-never-arrived-once:" + where)
+}
+
+func runOnce(r *mon.Run, cfg config) (wedged string) {
 	r.Case("execution %+v", cfg)
 	logrus.SetOutput(io.Discard)
 	logger := logrus.New()
@@ -336,11 +387,6 @@ func runExecution(r *mon.Run, cfg config) {
 	defer w.upstream.Close()
 	ingestAddr, telemetryAddr, udpAddr := freeAddr(), freeAddr(), freeUDP()
 
-	v := viper.New()
-	v.Set("http-servers", []string{"ingest"})
-	v.Set("http.ingest.address", ingestAddr)
-	v.Set("http.ingest.enable-ingestion", true)
-	v.Set("http.ingest.enable-healthcheck", false)
 	apiEndpoint := w.upstream.URL
 	compressionType := "zlib"
 	mode := "forwarder"
@@ -352,28 +398,82 @@ func runExecution(r *mon.Run, cfg config) {
 	case "compression":
 		compressionType = "no-such-compression"
 	}
-	v.Set("http-transport.api-endpoint", apiEndpoint)
-	v.Set("http-transport.compress", false)
-	v.Set("http-transport.compression-type", compressionType)
-	v.Set("http-transport.max-request-elapsed-time", fmt.Sprintf("%dms", cfg.WindowMS))
-	v.Set("http-transport.consolidator-slots", 1+rng.Intn(4))
-	v.Set("http-transport.flush-interval", "1h")
-	srv := &statsd.Server{
-		FlushInterval: time.Hour, MaxReaders: 1, MaxParsers: 1 + rng.Intn(3), MetricsAddr: udpAddr, StatserType: "null",
-		ReceiveBatchSize: 10, ServerMode: mode, Viper: v, TransportPool: transport.NewTransportPool(logger, v),
-	}
-	ext, err := lambda.NewExtension(logger, srv, lambda.Options{
-		RuntimeAPI: strings.TrimPrefix(w.runtime.URL, "http://"), ExecutableName: "gostatsd-verif", EnableManualFlush: true, TelemetryAddr: telemetryAddr,
-	})
-	if err != nil {
-		r.Inconclusive("setup:" + err.Error())
-		return
-	}
-	mock := clock.NewMock(time.Now())
-	ctx, cancel := context.WithCancel(clock.Context(context.Background(), mock))
-	defer cancel()
+	slots, parsers := 1+rng.Intn(4), 1+rng.Intn(3)
+	var mock *clock.Mock
 	runErr := make(chan error, 1)
-	go func() { runErr <- ext.Run(ctx) }()
+	var cancel func()
+	if cfg.Binary {
+		bin, err := ovl.BuildCmd("lambda-extension", "./cmd/lambda-extension", true)
+		if err != nil {
+			r.Inconclusive("setup:binary-build-failed")
+			return
+		}
+		var f strings.Builder
+		fmt.Fprintf(&f, "metrics-addr = %q\nstatser-type = \"null\"\nmax-readers = 1\nmax-parsers = %d\nreceive-batch-size = 10\nflush-interval = \"1h\"\n", udpAddr, parsers)
+		fmt.Fprintf(&f, "lambda-extension-telemetry-address = %q\n", telemetryAddr)
+		if cfg.ManualFlushKey != "" {
+			fmt.Fprintf(&f, "lambda-extension-manual-flush = %s\n", cfg.ManualFlushKey)
+		}
+		fmt.Fprintf(&f, "http-servers = [\"ingest\"]\n\n[http.ingest]\naddress = %q\nenable-ingestion = true\nenable-healthcheck = false\n\n", ingestAddr)
+		fmt.Fprintf(&f, "[http-transport]\napi-endpoint = %q\ncompress = false\ncompression-type = %q\nmax-request-elapsed-time = \"%dms\"\nconsolidator-slots = %d\nflush-interval = \"1h\"\n", apiEndpoint, compressionType, cfg.WindowMS, slots)
+		if len(cfg.DynHeaders) > 0 {
+			fmt.Fprintf(&f, "dynamic-headers = [\"%s\"]\n", strings.Join(cfg.DynHeaders, "\", \""))
+		}
+		dir := os.Getenv("VERIF_OUT")
+		confPath := filepath.Join(dir, fmt.Sprintf("c20-exec%d.toml", cfg.Exec))
+		if err := os.WriteFile(confPath, []byte(f.String()), 0o644); err != nil {
+			r.Inconclusive("setup:config-file")
+			return
+		}
+		logFile, _ := os.Create(filepath.Join(dir, fmt.Sprintf("c20-exec%d.log", cfg.Exec)))
+		cmd := exec.Command(bin, "--config-path="+confPath, "--lambda-entrypoint-name=gostatsd-verif")
+		cmd.Env = append(os.Environ(), "AWS_LAMBDA_RUNTIME_API="+strings.TrimPrefix(w.runtime.URL, "http://"))
+		cmd.Stdout, cmd.Stderr = logFile, logFile
+		if err := cmd.Start(); err != nil {
+			r.Inconclusive("setup:binary-start")
+			return
+		}
+		go func() { runErr <- cmd.Wait(); logFile.Close() }()
+		var once sync.Once
+		cancel = func() {
+			once.Do(func() {
+				_ = cmd.Process.Signal(os.Interrupt)
+				go func() {
+					time.Sleep(20 * time.Second) // watchdog: a child that ignores the interrupt is killed
+					_ = cmd.Process.Kill()
+				}()
+			})
+		}
+		defer func() { _ = cmd.Process.Kill() }()
+	} else {
+		v := viper.New()
+		v.Set("http-servers", []string{"ingest"})
+		v.Set("http.ingest.address", ingestAddr)
+		v.Set("http.ingest.enable-ingestion", true)
+		v.Set("http.ingest.enable-healthcheck", false)
+		v.Set("http-transport.api-endpoint", apiEndpoint)
+		v.Set("http-transport.compress", false)
+		v.Set("http-transport.compression-type", compressionType)
+		v.Set("http-transport.max-request-elapsed-time", fmt.Sprintf("%dms", cfg.WindowMS))
+		v.Set("http-transport.consolidator-slots", slots)
+		v.Set("http-transport.flush-interval", "1h")
+		srv := &statsd.Server{
+			FlushInterval: time.Hour, MaxReaders: 1, MaxParsers: parsers, MetricsAddr: udpAddr, StatserType: "null",
+			ReceiveBatchSize: 10, ServerMode: mode, Viper: v, TransportPool: transport.NewTransportPool(logger, v),
+		}
+		ext, err := lambda.NewExtension(logger, srv, lambda.Options{
+			RuntimeAPI: strings.TrimPrefix(w.runtime.URL, "http://"), ExecutableName: "gostatsd-verif", EnableManualFlush: true, TelemetryAddr: telemetryAddr,
+		})
+		if err != nil {
+			r.Inconclusive("setup:" + err.Error())
+			return
+		}
+		mock = clock.NewMock(time.Now())
+		ctx, cancelCtx := context.WithCancel(clock.Context(context.Background(), mock))
+		cancel = cancelCtx
+		go func() { runErr <- ext.Run(ctx) }()
+	}
+	defer cancel()
 
 	viol := func(sig, detail string) {
 		r.Violation(sig, detail+fmt.Sprintf(" [%+v]", cfg), map[string]interface{}{"config": cfg})
@@ -389,7 +489,7 @@ func runExecution(r *mon.Run, cfg config) {
 		select {
 		case err := <-runErr:
 			gets, initErr := snapshot()
-			if err == nil {
+			if err == nil && !cfg.Binary { // the executable logs the failure and exits normally
 				viol("startup-failure-not-reported", "Run returned nil although the server could not start")
 			}
 			if initErr != 1 {
@@ -400,7 +500,7 @@ func runExecution(r *mon.Run, cfg config) {
 			}
 			r.Eval(1)
 			r.Event("startup_failures", 1)
-			r.Nontrivial("startup-failure:" + cfg.Failure)
+			r.Nontrivial(fmt.Sprintf("startup-failure:%s binary%v", cfg.Failure, cfg.Binary))
 		case <-time.After(60 * time.Second):
 			r.Inconclusive("startup-failure-run-did-not-return")
 		}
@@ -414,7 +514,7 @@ func runExecution(r *mon.Run, cfg config) {
 		w.mu.Lock()
 		primed := w.primed
 		w.mu.Unlock()
-		if !primed || mock.Len() < 1 {
+		if !primed || (mock != nil && mock.Len() < 1) {
 			return false
 		}
 		for _, a := range []string{ingestAddr, telemetryAddr} {
@@ -482,7 +582,7 @@ func runExecution(r *mon.Run, cfg config) {
 					for i := range ids {
 						ids[i] = fmt.Sprintf("e%d-%d", cfg.Exec, idc.Add(1))
 					}
-					status, err := ingest(client, ingestAddr, ids)
+					status, err := ingestTagged(client, ingestAddr, ids, cfg.DynHeaders)
 					ack := r.Stamp()
 					_ = status
 					if err != nil || status < 200 || status > 299 {
@@ -498,6 +598,18 @@ func runExecution(r *mon.Run, cfg config) {
 		}
 		wg.Wait()
 	}
+	idle := func() bool {
+		w.mu.Lock()
+		defer w.mu.Unlock()
+		for _, b := range w.order {
+			for _, a := range b.attempts {
+				if a.end == 0 {
+					return false
+				}
+			}
+		}
+		return time.Since(time.Unix(0, w.lastUpstream.Load())) > 30*time.Second
+	}
 	waitGets := func(n int) bool {
 		return mon.WaitUntil(90*time.Second, func() bool { g, _ := snapshot(); return len(g) >= n })
 	}
@@ -508,9 +620,21 @@ func runExecution(r *mon.Run, cfg config) {
 	if cfg.InitData {
 		send(1 + rng.Intn(10))
 	}
-	phases = append(phases, phase{done: r.Stamp(), get: 1})
-	mock.Add(100 * time.Millisecond) // releases the manager's start-up wait: heartbeat starts with the initial flush
+	if cfg.Binary {
+		// the executable's 100 ms start-up wait is real time: the initial flush and the first GET may already have
+		// happened while the init data was being sent, so nothing is owed before the first GET; whatever was
+		// acknowledged so far is owed before the GET that follows the first runtime-done
+		phases = append(phases, phase{done: 0, get: 1})
+	} else {
+		phases = append(phases, phase{done: r.Stamp(), get: 1})
+	}
+	if mock != nil {
+		mock.Add(100 * time.Millisecond) // releases the manager's start-up wait: heartbeat starts with the initial flush
+	}
 	if !waitGets(1) {
+		if idle() {
+			return "follows-the-initial-flush"
+		}
 		r.Inconclusive("first-get-never-arrived")
 		return
 	}
@@ -628,6 +752,9 @@ func runExecution(r *mon.Run, cfg config) {
 			return
 		}
 		if !waitGets(k + 1) {
+			if idle() {
+				return "follows-a-runtime-done-flush"
+			}
 			r.Inconclusive("next-get-never-arrived")
 			return
 		}
@@ -705,8 +832,11 @@ func runExecution(r *mon.Run, cfg config) {
 	r.Event("bodies_retried", retried)
 	r.Event("bodies_abandoned", dropped)
 	r.Event("get_next", len(gets))
+	if cfg.Binary {
+		r.Event("real_binary_executions", 1)
+	}
 	if obligations > 0 && (retried > 0 || dropped > 0 || contains(cfg.Upstream, "slow") || contains(cfg.Upstream, "glacial")) {
-		r.Nontrivial(fmt.Sprintf("inv%d up%v init%v late%v senders%d retried%v dropped%v", cfg.Invocations, cfg.Upstream, cfg.InitData, cfg.LateData, cfg.Senders, retried > 0, dropped > 0))
+		r.Nontrivial(fmt.Sprintf("inv%d up%v init%v late%v senders%d retried%v dropped%v binary%v%s dyn%v", cfg.Invocations, cfg.Upstream, cfg.InitData, cfg.LateData, cfg.Senders, retried > 0, dropped > 0, cfg.Binary, cfg.ManualFlushKey, cfg.DynHeaders))
 	}
 	if r.WantSample() {
 		var bl []map[string]interface{}
@@ -722,6 +852,7 @@ func runExecution(r *mon.Run, cfg config) {
 		}
 		r.Sample(map[string]interface{}{"config": cfg, "get_next_stamps": gets, "phases_done_stamps": phases2(phases), "bodies": bl, "acked": len(all), "obligations": obligations})
 	}
+	return ""
 }
 
 type phase struct {
@@ -761,7 +892,7 @@ func TestCheck(t *testing.T) {
 		r.Nontrivial("replay-b")
 		return
 	}
-	n := r.N(24, 1200)
+	n := r.N(32, 1200)
 	rng := r.Rand("configs")
 	shard, _ := r.Shard()
 	scripts := [][]string{{"fast"}, {"slow"}, {"slow", "fast"}, {"retry", "fast"}, {"fast", "retry", "slow"}, {"dead", "fast"}, {"slow", "dead"}}
@@ -794,6 +925,21 @@ func TestCheck(t *testing.T) {
 		if i == 1 || (r.Thorough() && i%5 == 1) {
 			cfg.Failure = ""
 			cfg.HoldSlot = true
+		}
+		// the real executable: main(), GetConfiguration and NewServer are part of the run; half of these carry
+		// http-transport.dynamic-headers in the configuration file (documented as without effect in the extension)
+		// and datapoints tagged with them, against an upstream whose bodies alternate between slow and fast
+		if i == 2 || i == 3 || (r.Thorough() && i%4 == 2) {
+			cfg.Binary, cfg.HoldSlot, cfg.GlacialMS, cfg.ManyNames = true, false, 0, 0
+			cfg.ManualFlushKey = []string{"", "true"}[rng.Intn(2)]
+			if cfg.Failure == "mode" {
+				cfg.Failure = []string{"endpoint", "compression"}[rng.Intn(2)] // main() fixes the server mode
+			}
+			if i%2 == 1 {
+				cfg.DynHeaders = [][]string{{"tenant"}, {"tenant", "region"}}[rng.Intn(2)]
+				cfg.Upstream = [][]string{{"slow", "fast"}, {"fast", "slow"}, {"slow", "fast", "fast"}}[rng.Intn(3)]
+				cfg.WindowMS = 1000
+			}
 		}
 		runExecution(r, cfg)
 		if r.Violations() > 6 {
